@@ -350,6 +350,77 @@ pub fn c10_order_cases(rng: &mut Rng, tier: &str, out: &mut Out) {
     }
 }
 
+/// C10, "abandoning a file midway and asking for hashes": on interleaved archives, for every file f, a
+/// partial read of f of c bytes (c = 1, every run boundary of f +- 1, size - 1) dropped midway, then the hash
+/// of f and of every other file: each hash is the SHA-256 of that file's bytes (= what a fresh reader says).
+pub fn c10_abandon_hash_cases(rng: &mut Rng, tier: &str, out: &mut Out) {
+    use sha2::{Digest, Sha256};
+    let n = if tier == "thorough" { 400 } else { 80 };
+    let mut done = 0;
+    let mut k = 0;
+    while done < n {
+        let layers = [0u8, L_COMP, L_ENC, L_ENC | L_COMP][k % 4];
+        k += 1;
+        let plan = gen_plan(rng, layers);
+        if plan.names.len() < 2 || !plan.pieces.windows(2).any(|w| w[0].0 != w[1].0) {
+            continue;
+        }
+        let Ok(built) = build(rng, &plan) else { continue };
+        let privs = reader_keys(&plan, &built);
+        let mut msg: Option<String> = None;
+        'files: for f in 0..plan.names.len() {
+            let size = built.contents[f].len();
+            if size < 2 {
+                continue;
+            }
+            // run boundaries of f in its own byte coordinates
+            let mut cuts: Vec<usize> = vec![1, size - 1];
+            let mut acc = 0usize;
+            for (g, d) in &plan.pieces {
+                if *g == f {
+                    acc += d.len();
+                    for c in [acc.saturating_sub(1), acc, acc + 1] {
+                        if c >= 1 && c < size {
+                            cuts.push(c);
+                        }
+                    }
+                }
+            }
+            cuts.sort();
+            cuts.dedup();
+            for c in cuts {
+                let mut ops = vec![vec![2u64, f as u64, c as u64]];
+                for g in 0..plan.names.len() {
+                    ops.push(vec![1, ((f + g) % plan.names.len()) as u64]);
+                }
+                let rows = run_history(&built.bytes, &privs, &plan.names, &ops, false);
+                let gr = per_op(&rows);
+                for (j, op) in ops.iter().enumerate().skip(1) {
+                    let want = Sha256::digest(&built.contents[op[1] as usize]);
+                    let got = gr.get(j).and_then(|g| g.first()).cloned().unwrap_or_default();
+                    if got.first() != Some(&0) || got[1..].iter().map(|v| *v as u8).collect::<Vec<u8>>() != want.as_slice() {
+                        msg = Some(format!("layers {layers}: after {c} of the {size} bytes of file {f} were read and the file dropped, the hash asked for file {} is not the SHA-256 of its bytes (pieces {:?})",
+                                           op[1], plan.pieces.iter().map(|p| (p.0, p.1.len())).collect::<Vec<_>>()));
+                        break 'files;
+                    }
+                }
+            }
+        }
+        out.case(&Case {
+            id: format!("c10-abandon-{done}"),
+            model_fn: "",
+            args: vec![],
+            imp: json!([]),
+            oracle_ok: msg.is_none(),
+            oracle_msg: msg.unwrap_or_default(),
+            class: format!("abandon-then-hash layers={layers} files={}", plan.names.len()),
+            nontrivial: true,
+            meta: json!({"layers": layers, "pieces": plan.pieces.iter().map(|p| (p.0, p.1.len())).collect::<Vec<_>>()}),
+        });
+        done += 1;
+    }
+}
+
 // ------------------------------------------------------------------ C12
 
 /// Independent walk of a layer-less block stream: does it reach an EndOfArchiveData tag at a
@@ -569,13 +640,28 @@ pub fn c13_cases(rng: &mut Rng, tier: &str, out: &mut Out) {
 /// C14: what was appended before a flush() is recoverable from the bytes the destination held
 /// when flush() returned.
 pub fn c14_cases(rng: &mut Rng, tier: &str, out: &mut Out) {
-    let n = if tier == "thorough" { 400 } else { 60 };
+    // production constants: only the chunk-edge family below (the staging of small writes, if any, is sized in
+    // production units)
+    let n = if !cfg!(feature = "scaled") { 0 } else if tier == "thorough" { 400 } else { 60 };
     let (ch, tag) = if cfg!(feature = "scaled") { (64usize, 16usize) } else { (131072, 16) };
     let bl = if cfg!(feature = "scaled") { 256usize } else { 4 << 20 };
     let naligned = if cfg!(feature = "scaled") { if tier == "thorough" { 48 } else { 12 } } else { 0 };
+    // chunk-edge family: a first append that leaves the stream every distance from a chunk boundary, then a
+    // SMALL append (1..40 bytes: its block header and data are written field by field), a flush, a cut
+    let mut special: Vec<(Plan, Vec<usize>)> = Vec::new();
+    {
+        let firsts: Vec<usize> = if cfg!(feature = "scaled") { (0..=(ch + 8)).step_by(if tier == "thorough" { 1 } else { 3 }).collect() }
+                                 else { ((ch - 130)..=(ch - 30)).step_by(if tier == "thorough" { 1 } else { 4 }).collect() };
+        for (q, first) in firsts.iter().enumerate() {
+            let small = [1usize, 3, 4, 40, 17, 2][q % 6];
+            let layers = if q % 5 == 4 { L_ENC | L_COMP } else { L_ENC };
+            special.push((Plan { names: vec![b"f".to_vec()], pieces: vec![(0, rng.bytes(*first)), (0, rng.bytes(small)), (0, rng.bytes(5))], layers, level: 1, recipients: 1, reader_key: 0 }, vec![1]));
+        }
+    }
+    let nspecial = special.len();
     let mut k = 0;
     let mut done = 0;
-    while done < n + naligned {
+    while done < n + naligned + nspecial {
         let layers = (k % 4) as u8;
         k += 1;
         let mut plan = gen_plan(rng, layers);
@@ -586,7 +672,11 @@ pub fn c14_cases(rng: &mut Rng, tier: &str, out: &mut Out) {
         plan.reader_key = 0;
         let nflush = rng.range(1, 3) as usize;
         let mut flush_after: Vec<usize> = (0..nflush).map(|_| rng.below(plan.pieces.len() as u64) as usize).collect();
-        if done >= n {
+        if done >= n + naligned {
+            let (p, fa) = special.pop().unwrap();
+            plan = p;
+            flush_after = fa;
+        } else if done >= n {
             // two flushes separated by EXACTLY j blocks (or chunks) of the layer's input stream:
             // a content block of d bytes takes 17 + d bytes of stream
             let j = 1 + (done - n) % 3;
@@ -634,6 +724,17 @@ pub fn c14_cases(rng: &mut Rng, tier: &str, out: &mut Out) {
                         msg = Some(format!("file {i}: {} bytes appended before the flush, repair of the {} flushed bytes recovers {} (unauthenticated mode / no encryption)", want.len(), flen, g.len().min(want.len())));
                         break;
                     }
+                }
+            }
+            if msg.is_none() && plan.layers & L_ENC != 0 && header_ok {
+                // the flushed bytes delivered by a source that reports ONE interruption (the encryption layer's loads
+                // repeat an interrupted read): the same bytes are recovered
+                let q = *rng.pick(&[1usize, 7, 16, 80, 100_000]);
+                let at = rng.below((prefix.len() / q.min(80)) as u64 + 3) as usize;
+                let rf = repair_with(crate::repair::FlakyReader { data: prefix, pos: 0, sched: vec![q], calls: 0, intr: vec![at] }, &built.privs, true);
+                if rf.files != ru.files {
+                    msg = Some(format!("repair of the flushed bytes through a source (reads of {q} bytes) reporting one interruption at read {at} recovers {} bytes, {} from memory",
+                                       rf.files.iter().map(|f| f.1.len()).sum::<usize>(), ru.files.iter().map(|f| f.1.len()).sum::<usize>()));
                 }
             }
             if msg.is_none() && plan.layers & L_ENC != 0 {
